@@ -4,6 +4,12 @@ import json, os
 ROOT = os.path.dirname(os.path.dirname(os.path.abspath(__file__)))
 CLAIMED = {
  # id: (level category, technique, level text, level note, design_ref)
+ "C01": ("model_checking", "CrossHair/z3 symbolic execution of the real Pipeline/orchestrator/node stack per shape template, differential against a reference model; unit obligations on resolve_runtime_value, the validating observer and the type gate",
+         "Bounded symbolic differential check: for each shape template (all length-1, all length-2 over 19 node forms, 24 curated interactions; thorough: all length-3 + seeded longer ones) the solver explores every path of the real run with payload, configured values, context values symbolic and every placement/presence a symbolic flag, and shows data, context and the component log equal the documented semantics, or the prescribed exception at the prescribed node with nothing after it.",
+         "Trusted: CrossHair 0.0.110 + z3 models; the reference model vt/refmodel.py (my reading of the docs); harness component library instead of the float examples; stubs for clock, canonical JSON, logging, env pins (listed in evidence). Lengths beyond the templates are outside.", "4 C01"),
+ "C02": ("model_checking", "CrossHair/z3 symbolic execution of real inspection+validation followed by the real run on the same symbolic configuration (soundness implication + per-node truthfulness), unit obligations tying inspect_origin/_is_compatible/unknown-parameter classification to their run-time counterparts",
+         "Bounded symbolic implication check per shape template: whenever build_pipeline_inspection+validate_pipeline accept and the (symbolic) initial context contains the reported required keys, the real run has no path that fails on flow; with exactly the required keys, reported created/suppressed keys and parameter origins are compared with the recorded per-node context and the values the components received, for all values.",
+         "Trusted: as C01; precondition that the initial payload type fits the first data node; flow failure classified by exception class+message. One open known finding (origin 'default' vs initial context) is listed in known_findings.json.", "4 C02"),
  "C11": ("model_checking", "CrossHair/z3 symbolic execution of the real _SafeVisitor: one local lemma per AST node class (structural induction) + symbolic compile() sequences",
          "Bounded symbolic check: for every node class of the interpreter's expression grammar the solver explores all paths of the real visitor over symbolic child counts (0..2), optional-field flags and identifier strings (len<=8) and shows that a normal return implies whitelist membership, declared names, listed call targets and that every child position was visited; by induction over the tree this covers expressions of any depth. compile() is checked as a unit over a 16x6 table with symbolic indices, symbolic variable values and 2-call histories.",
          "Trusted: CPython ast/compile/eval, CrossHair 0.0.110 + z3 5.1 models of int/str/list; the whitelist constant frozen in the harness; bounds: list fields <=2 children, identifiers <=8 chars, expression texts limited to the table.", "4 C11"),
